@@ -2099,6 +2099,16 @@ impl Parser {
         }
 
         if real_ty.is_class() {
+            // the alias of a class is also the name of its constructor; like `class` and
+            // `import`, it does not take over a name that is already in use
+            if input.user_data().has_name_been_mapped(ident.name()) {
+                return Err(new_err(
+                    input.as_span(),
+                    &input.user_data().get_source_file_name(),
+                    "duplicate: this name is already in use".to_owned(),
+                ));
+            }
+
             ident.link_force_no_inherit(input.user_data(), real_ty.clone())?;
         }
 
